@@ -149,9 +149,20 @@ class Ctx:
         # Print Assumptions output
         closed = len(re.findall(r'Closed under the global context', out))
         axioms = set()
-        for blk in re.findall(r'Axioms:\n((?:.+\n?)+?)(?:\n|$)', out):
-            for m in re.finditer(r'^(\S+)\s*:', blk, re.M):
+        inblk = False
+        for line in out.split('\n'):
+            if line.startswith('Axioms:'):
+                inblk = True
+                continue
+            if not inblk:
+                continue
+            if line.startswith(' ') or line.strip() == '':
+                continue            # continuation of a type
+            m = re.match(r'^([A-Za-z_][\w\.\']*)\s*(:|$)', line)
+            if m and '.' in m.group(1):
                 axioms.add(m.group(1))
+            else:
+                inblk = False       # some other output (Closed under..., Check, ...)
         bad = [a for a in axioms if a not in ALLOWED_AXIOMS]
         self.assumptions.append('Print Assumptions: %d theorem(s) closed under the global context; axioms used: %s'
                                 % (closed, sorted(axioms) if axioms else 'none'))
@@ -199,6 +210,24 @@ class Ctx:
             self.gate_breaks.append('model-driver %s failed: %s' % (family, p.stderr.decode()[-300:]))
             return False
         return True
+
+    def drivers(self, jobs, timeout=3000):
+        """run several model-driver jobs concurrently: jobs = [(family, infile, outfile, extra)]"""
+        procs = []
+        for fam, inf, outf, extra in jobs:
+            args = [os.path.join(BUILD, 'extract', 'driver'), fam] + (extra or [])
+            procs.append((fam, subprocess.Popen(args, stdin=open(inf), stdout=open(outf, 'w'), stderr=subprocess.PIPE)))
+        ok = True
+        for fam, p in procs:
+            try:
+                _, err = p.communicate(timeout=timeout)
+            except subprocess.TimeoutExpired:
+                p.kill()
+                err = b'timeout'
+            if p.returncode != 0:
+                self.gate_breaks.append('model-driver %s failed: %s' % (fam, (err or b'').decode()[-300:]))
+                ok = False
+        return ok
 
     # ---------- Go ----------
     def build_go(self, module, race=False, pkg='./verifharness', name=None):
@@ -270,6 +299,52 @@ class Ctx:
         if len(mism) > max_report:
             self.notes.append('%s: %d further mismatches not listed' % (name, len(mism) - max_report))
         return mism
+
+    def oracle_stream(self, name, path, cases_path=None, max_report=5):
+        """verdict lines written by the Go property oracle: 'OK <0|1 nontrivial> [note]' or
+        'VIOL <class|-> <detail...>'; optional parallel file with the inputs for the replay"""
+        lines = [l for l in open(path).read().split('\n') if l != '']
+        cases = open(cases_path).read().split('\n') if cases_path and os.path.exists(cases_path) else None
+        nt = viol = 0
+        reported = {}
+        for i, l in enumerate(lines):
+            self._distinct.add(hashlib.md5((name + str(i) + (cases[i] if cases and i < len(cases) else l)).encode()).hexdigest())
+            if l.startswith('OK'):
+                if l[2:4].strip().startswith('1'):
+                    nt += 1
+                continue
+            viol += 1
+            parts = l.split(' ', 2)
+            cls = parts[1] if len(parts) > 1 and parts[1] != '-' else None
+            key = cls or '-'
+            reported[key] = reported.get(key, 0) + 1
+            if reported[key] <= max_report:
+                self.add_violation('oracle:' + name, cls,
+                                   dict(stream=name, index=i, verdict=l[:2000],
+                                        case=(cases[i][:4000] if cases and i < len(cases) else None)))
+        self.cov['evaluations'] += len(lines)
+        self.cov['streams'][name] = dict(cases=len(lines), nontrivial=nt, mismatches=viol)
+        if lines:
+            k = min(len(lines) - 1, 1 + self.seed % 7)
+            self.cov['samples'].append({'stream': name, 'verdict': lines[k][:300],
+                                        'case': (cases[k][:300] if cases and k < len(cases) else None)})
+        return viol
+
+    def two_phase_unescape(self, family_args, cases, d, harness):
+        """html.UnescapeString oracle: the model lists every raw token containing '&', Go unescapes them"""
+        amps = os.path.join(d, 'amps.txt')
+        ue = os.path.join(d, 'ue.table')
+        args = [os.path.join(BUILD, 'extract', 'driver')] + family_args + ['amps']
+        with open(cases) as fi, open(amps, 'w') as fo:
+            p = subprocess.run(args, stdin=fi, stdout=fo, stderr=subprocess.PIPE, timeout=3000)
+        if p.returncode != 0:
+            self.gate_breaks.append('model-driver (amps phase) failed: ' + p.stderr.decode()[-300:])
+            return None
+        with open(amps) as fi, open(ue, 'w') as fo:
+            p = subprocess.run([harness, 'unescape'], stdin=fi, stdout=fo, stderr=subprocess.PIPE, timeout=600)
+        n = len([l for l in open(ue).read().split('\n') if l])
+        self.assumptions.append('html.UnescapeString oracle: %d raw tokens containing & resolved by the running Go code' % n)
+        return ue
 
     # ---------- violations ----------
     def add_violation(self, kind, cls, detail, concrete=True):
